@@ -549,10 +549,16 @@ fn random_step(rng: &mut Rng, focus: &str, phc_refid: u32) -> Step {
     } else {
         return Step::Silence;
     };
-    let ref_id = match rng.below(6) {
-        0 => phc_refid,
-        1 => phc_refid ^ (1 << rng.below(32)),
-        2 => 0,
+    // Reference id of the report: the configured one, or one that merely resembles it.
+    let ref_id = match rng.below(12) {
+        0 | 1 => phc_refid,
+        2 => phc_refid ^ (1 << rng.below(32)),
+        3 => 0,
+        4 => phc_refid << 8,
+        5 => phc_refid >> 8,
+        6 => phc_refid.swap_bytes(),
+        7 => phc_refid.rotate_left(8 * (1 + rng.below(3) as u32)),
+        8 => phc_refid & 0x00ff_ffff,
         _ => if focus == "c13" { phc_refid } else { rng.next() as u32 },
     };
     Step::Answer { kind, request_latency: lat(rng, heavy), reply_latency: lat(rng, heavy), tight: rng.chance(1, 2), ref_id, phc_share: rng.below(5) as u8 }
@@ -577,7 +583,8 @@ fn one_history(a: &Args, mode: &str, seed: u64, obs: &mut Obs, violations: &mut 
     let dir = workdir(&format!("w{}", a.shard));
     let path = dir.join("shm");
     let _ = std::fs::remove_file(&path);
-    let phc_refid = 0x5048_4330;
+    // "PHC0", and ids with NUL bytes as `refid_to_u32("PHC")` or chronyd's left-justified form give.
+    let phc_refid: u32 = *rng.pick(&[0x5048_4330u32, 0x5048_4330, 0x0050_4843, 0x5048_4300, 0x0000_0050, 0x5000_0000, 0x4750_5300]);
     let phc_path = dir.join("phc_error_bound");
     let with_phc = rng.chance(1, 2) || mode == "c13";
     let phc_value: i64 = *rng.pick(&[0i64, 1, 12345, 3_000_000]);
@@ -670,7 +677,14 @@ fn one_history(a: &Args, mode: &str, seed: u64, obs: &mut Obs, violations: &mut 
         // --- PHC file trouble
         if with_phc && rng.chance(1, 25) {
             phc_broken = !phc_broken;
-            if phc_broken { let _ = std::fs::remove_file(&phc_path); } else { std::fs::write(&phc_path, format!("{}\n", phc_value)).unwrap(); }
+            if phc_broken { let _ = std::fs::remove_file(&phc_path); } else { std::fs::write(&phc_path, format!("{}\n", sim.phc_value)).unwrap(); }
+        }
+        // --- the device's own error bound changes over time (the file is rewritten in place)
+        if with_phc && !phc_broken && rng.chance(1, 6) {
+            sim.phc_value = *rng.pick(&[0i64, 1, 7, 12345, 31_000, 3_000_000, 250]);
+            use std::io::Write;
+            let mut f = std::fs::OpenOptions::new().write(true).truncate(true).open(&phc_path).unwrap();
+            writeln!(f, "{}", sim.phc_value).unwrap();
         }
         // --- the poll
         let step = if outage_left > 0 {
